@@ -694,6 +694,9 @@ impl<'a, I: PrimInt, T: Clone> Iterator for IterDepth<'a, I, T>
 
     #[inline]
     fn next(&mut self) -> Option<Self::Item> {
+        if self.end == 0 {
+            return None;
+        }
         let mut interval: &Interval<I, bool> = &self.merged.intervals[self.curr_pos];
         if self.curr_merged_pos == zero::<I>() {
             self.curr_merged_pos = interval.start;
